@@ -312,6 +312,7 @@ class PlanConverter:
                 self.ma_domain,
                 current_state,
                 [action for action in joint_action if action.name != NOP_ACTION],
+                problem_objects=problem.objects,
             )
             joint_actions.append(JointActionCall(joint_action))
 
